@@ -910,6 +910,9 @@ class Interp:
                 return self.env[e.id]
             if e.id in ("True", "False"):
                 return e.id == "True"
+            if self.externals.get("__strict__") and callable(self.externals.get(e.id)):
+                ext_f = self.externals[e.id]
+                return PyFunc(lambda a, k, ext_f=ext_f: ext_f(a, k), e.id)  # a modelled function / class used as a value
             raise Undecided(f"unknown name {e.id}")
         if isinstance(e, ast.Attribute):
             if isinstance(e.value, ast.Name) and e.value.id == "self":
@@ -1229,7 +1232,7 @@ class Interp:
                 return self.externals[name](xa, xk)
             except NotHandled:
                 pass  # the model does not apply to this call shape (e.g. method form x.tolist())
-        if isinstance(f, ast.Call):
+        if isinstance(f, (ast.Call, ast.Subscript)):
             callee = self.eval(f)
             xa = self.eval_args(e.args)
             xk = self.eval_kwargs(e.keywords)
